@@ -297,12 +297,19 @@ Definition construct (d : design) : outcome dict :=
 
 (** ** rounding precision ([_generate_dataset]):
     [rounding_precision = <init>; for precision, val in sorted(rounding_options.items()): if val <= min_spacing: rounding_precision = precision; break].
-    [init] is the value the variable holds before the loop — today [max(rounding_options)], the finest option ([max_key]);
+    [init] is the value the variable holds before the loop — today [max(rounding_options)], the finest option ([max_key];
+    [min_key] is the reading of [min(...)], which the translator also understands);
     [None] = no integer ([max] of an empty dict raises; a [None] there makes [Series.round(None)] raise). *)
 Fixpoint max_key (opts : list (Z * Q)) : option Z :=
   match opts with
   | [] => None
   | (p, _) :: r => match max_key r with None => Some p | Some q => Some (Z.max p q) end
+  end.
+
+Fixpoint min_key (opts : list (Z * Q)) : option Z :=
+  match opts with
+  | [] => None
+  | (p, _) :: r => match min_key r with None => Some p | Some q => Some (Z.min p q) end
   end.
 
 Fixpoint precision_of (opts : list (Z * Q)) (init : option Z) (min_spacing : Q) : option Z :=
